@@ -367,6 +367,34 @@ def ladder_graph(n):
     return {"triples": tr, "classes": [C], "inst_prop": RDF_TYPE}
 
 
+@st.composite
+def table_graph(draw):
+    """class-mode cardinality table (see C12.table_case): one class of 4-9 instances, 1-2 properties, per instance 0-3 plain IRI values
+    and 0-2 values that are instances of a second class (or no second class); many instances, three-level cardinality frequencies"""
+    n = draw(st.integers(4, 9))
+    with_E = draw(st.booleans())
+    A = "http://ex.org/C0"
+    tr = [[["iri", "http://ex.org/a%d" % i], RDF_TYPE, ["iri", A]] for i in range(n)]
+    E = ["http://ex.org/e%d" % j for j in range(3)]
+    for pi in range(draw(st.integers(1, 2))):
+        p = "http://ex.org/p%d" % pi
+        lit = draw(st.booleans())
+        for i in range(n):
+            a = draw(st.sampled_from([0, 1, 1, 1, 2, 2, 3]))
+            b = draw(st.sampled_from([0, 0, 1, 1, 2])) if with_E else 0
+            for x in range(a):
+                tr.append([["iri", "http://ex.org/a%d" % i], p, make_lit("str", x) if lit else ["iri", "http://ex.org/u%d" % x]])
+            for x in range(b):
+                tr.append([["iri", "http://ex.org/a%d" % i], p, ["iri", E[(i + x) % 3]]])
+    if with_E:
+        for e in E:
+            tr.append([["iri", e], RDF_TYPE, ["iri", "http://ex.org/ns/C1"]])
+            if draw(st.booleans()):
+                tr.append([["iri", e], "http://ex.org/ns/q", ["lit", "v", XSD_STRING, ""]])
+    perm = draw(st.permutations(range(len(tr))))
+    return {"triples": [tr[i] for i in perm], "classes": [A] + (["http://ex.org/ns/C1"] if with_E else []), "inst_prop": RDF_TYPE}
+
+
 def expand(g):
     """graphs may be stored compactly in a case ({"scale": [n, missing, double]}, {"ladder": n})"""
     if "scale" in g:
